@@ -43,6 +43,11 @@ def run(ctx):
         node, _ = mod.lookup(q)
         if node is not None:
             ctx.function_under_contract(MOD + ":" + q, mod.segment(node))
+    # every record is dumped as one continuation line: the reader must never take such a line for an armor line or a separator
+    from props import C08 as _c08
+    _c08.armor_lemmas(ctx, real, tag="R-12d")
+    from props import C02 as _c02
+    _c02.verify_split_gpg(ctx, real)
     rng = random.Random(ctx.seed)
     configs = [("Dsc", real.Dsc, None), ("Changes", real.Changes, None), ("BuildInfo", real.BuildInfo, None),
                ("Release/apt-ftparchive", real.Release, "apt-ftparchive"), ("Release/dak", real.Release, "dak"),
@@ -110,7 +115,9 @@ def run(ctx):
         t.samples.append({"class": cname, "fields": subsets[-1]})
     t.done()
     ctx.level = "other"
-    ctx.explanation = "BOUNDED ONLY in this revision (see module docstring)."
+    ctx.explanation = ("PROVED for all lines (SMT on the real pattern objects): a record line, being a continuation line, is never taken "
+                       "for a PGP armor line or a paragraph separator by the patterns of split_gpg_and_payload; split_gpg_and_payload, from its real AST, returns exactly the lines (CR / LF stripped) as payload - nothing taken for armor, nothing cut off - for every sequence of lines none of which matches the armor pattern or the separator pattern in force (loop invariant over the line index; both parser settings). Everything else - "
+                       "record <-> line conversion, sub-field names, alignment, absent optional fields - BOUNDED (see module docstring).")
     ctx.assumptions += ["record lists are non-empty (an empty list formats to an empty value, which parses back as a single-line "
                         "empty mapping: outside 'any list of records')"]
 
